@@ -380,6 +380,11 @@ class FilePipeline(Part):
         for base in ("::ffff:11.22.33.44", "64:ff9b::198.51.100.77", "::172.20.9.5", "2001:db8::8.8.4.4"):
             b = int(ipaddress.IPv6Address(base))
             v6.update({b, b ^ 1, b ^ 0x100, b ^ 0x10000, b ^ (1 << 31), b ^ (1 << 40)})
+        # ... and the originals whose IMAGE lies at the edges of the 128-bit range (first / last addresses,
+        # around 2^32, 2^64) - chosen by their image with the family's own inverse
+        inv = ipdom.make_v6(["md5", case["salt"]], case["B"])
+        for t in (0, 1, 5, 0x0A010203, 2 ** 32 - 1, 2 ** 32, 2 ** 64 - 1, 2 ** 64, 2 ** 128 - 1, 2 ** 128 - 2):
+            v6.add(inv.deanonymize(t))
         toks = []
         for a in sorted(v6):
             ip = ipaddress.IPv6Address(a)
